@@ -491,3 +491,130 @@ class DispatchVariables(Contract):
             lift(m.cols['node'].f(j)) == ctx['names'][0], lift(m.cols['node'].f(n + j)) == ctx['names'][1],
             lift(m.cols['time_step'].f(j)) == ctx['ts'](j), lift(m.cols['time_step'].f(n + j)) == ctx['ts'](j),
             lift(m.index.f(j)) == ctx['idx'](j), lift(m.index.f(n + j)) == ctx['idx'](j)))))
+
+
+@register
+class CapacityRows(Contract):
+    """CHPAsset._add_constraints_for_min_and_max_cap without start / shutdown ramp profiles (start_ramp_time = shutdown_ramp_time = 0): C06 "when
+    off its output is zero, when on its virtual output (power + factor x heat) is between minimum and maximum capacity":
+        L_i:  power_i + factor_i x heat_i - min_cap_i x on_i >= 0          U_i:  power_i + factor_i x heat_i - max_cap_i x on_i <= 0
+    (without on variables:  >= 0  and  <= max_cap_i), one pair per step of the window, appended after the existing rows.  Precondition: the
+    window's steps are consecutive grid steps (same-frequency restricted grid), the i-th dispatch row of the mapping belongs to the i-th step.
+    Start / shutdown ramp profiles are covered by the bounded scenarios only."""
+    qualname = 'assets:CHPAsset._add_constraints_for_min_and_max_cap'
+    prefix = 'C06.capacity'
+    properties = ('C06',)
+
+    def cases(self):
+        return [dict(heat=h, on=o, tar=t) for h in (True, False) for o in (True, False) for t in (0, 2)]
+
+    def harness(self, H, case):
+        ctx = chp_harness(H, with_heat=case['heat'])
+        n, T, N = ctx['n'], ctx['T'], ctx['N']
+        H.assume(n == T)                                  # one dispatch variable per step of the window
+        rI0 = H.int('first_step')
+        so = ctx['self_obj']
+        so.get('timegrid').get('restricted').set('I', Arr(T, lambda k: rI0 + lift(k)))
+        # mapping: row i = dispatch variable i at step first_step + i (the rows after the first n are of no concern here)
+        R = H.int('n_maprows')
+        H.assume(R >= n)
+        mapping = DF(R, Arr(R, lambda q: lift(q)), {'time_step': Arr(R, lambda q: rI0 + lift(q)), 'var_name': Arr(R, lambda q: 'disp')})
+        ctx['op'].set('mapping', mapping)
+        if not case['heat']:
+            so.set('idx_nodes', {'power': 0, 'heat': None, 'fuel': None})
+        mn, mx, conv = H.real_arr('min_cap', n), H.real_arr('max_cap', n), H.real_arr('conversion_factor_power_heat', n)
+        ctx.update(mn=mn, mx=mx, conv=conv, args=[ctx['op'], mn, mx, case['tar'], conv, case['on'], 0, None, None, 0, None, None, None, None, None, None])
+        return ctx
+
+    def post(self, H, case, outcome, I, ctx):
+        if outcome[0] != 'return':
+            yield ('C06.capacity.no_raise', False if outcome[0] == 'raise' else Havoc(outcome[1]))
+            return
+        op = outcome[1]
+        A, b, ct = (op.get(k) for k in ('A', 'b', 'cType'))
+        if any(isinstance(x, Havoc) for x in (A, b, ct)) or not isinstance(A, Mat):
+            yield ('C06.capacity.modelled', next((x for x in (A, b, ct) if isinstance(x, Havoc)), Havoc('rows not a matrix')))
+            return
+        N, m0, n, ht, on = (ctx[k] for k in ('N', 'm0', 'n', 'ht', 'on'))
+        i, c = z3.Int('i'), z3.Int('c')
+        yield ('C06.capacity.one_lower_and_one_upper_row_per_step', z3.And(lift(A.nr) == m0 + 2 * n, lift(A.nc) == N, lift(b.n) == m0 + 2 * n, lift(S.str_len(ct)) == m0 + 2 * n))
+        yield ('C06.capacity.base_rows_kept', base_kept(ctx, A, b, ct))
+        virt = lambda cc, ii: ind(cc, ii) + (ctx['conv'].f(ii) * ind(cc, ht + ii) if case['heat'] else 0)
+        lo = lambda cc, ii: virt(cc, ii) - (ctx['mn'].f(ii) * ind(cc, on + ii) if case['on'] else 0)
+        up = lambda cc, ii: virt(cc, ii) - (ctx['mx'].f(ii) * ind(cc, on + ii) if case['on'] else 0)
+        rng_ = z3.And(i >= 0, i < n, c >= 0, c < N)
+        yield ('C06.capacity.off_means_zero_on_means_at_least_min_capacity', z3.ForAll([i, c], z3.Implies(rng_, z3.And(
+            lift(A.f(m0 + i, c)) == lo(c, i), lift(b.f(m0 + i)) == 0, lift(S.char_at(ct, m0 + i)) == sym.strlit('L')))))
+        yield ('C06.capacity.at_most_max_capacity_when_on_zero_when_off', z3.ForAll([i, c], z3.Implies(rng_, z3.And(
+            lift(A.f(m0 + n + i, c)) == up(c, i), lift(b.f(m0 + n + i)) == (0 if case['on'] else ctx['mx'].f(i)),
+            lift(S.char_at(ct, m0 + n + i)) == sym.strlit('U')))))
+
+
+@register
+class RampRows(Contract):
+    """CHPAsset._add_constraints_for_ramp without start / shutdown ramp profiles: C06 "changes by at most the ramp between consecutive steps including
+    the first step relative to the last dispatch".  With v_t = power_t + factor_t x heat_t (virtual output of step t), for t = 1..T-1 one pair of rows
+        L:  v_t - v_{t-1} + ramp x on_{t-1} >= 0        U:  v_t - v_{t-1} - ramp x on_t <= 0         (without on variables: >= -ramp, <= ramp)
+    (a plant that is off may drop to / start from zero only through the capacity rows), then the pair for the first step relative to last_dispatch
+        L:  v_0 >= last_dispatch (not running before)  /  last_dispatch - ramp (running before)
+        U:  v_0 - ramp x on_0 <= last_dispatch         (without on variables: v_0 <= last_dispatch + ramp)."""
+    qualname = 'assets:CHPAsset._add_constraints_for_ramp'
+    prefix = 'C06.ramp'
+    properties = ('C06',)
+
+    def cases(self):
+        return [dict(heat=h, on=o, tar=t) for h in (True, False) for o in (True, False) for t in (0, 2)]
+
+    def harness(self, H, case):
+        ctx = chp_harness(H, with_heat=case['heat'])
+        n, T = ctx['n'], ctx['T']
+        H.assume(n == T)
+        so = ctx['self_obj']
+        if not case['heat']:
+            so.set('idx_nodes', {'power': 0, 'heat': None, 'fuel': None})
+        ramp, last = H.real('ramp'), H.real('last_dispatch')
+        conv, mx = H.real_arr('conversion_factor_power_heat', n), H.real_arr('max_cap', n)
+        ctx.update(ramp=ramp, last=last, conv=conv, args=[ctx['op'], ramp, conv, case['tar'], case['on'], mx, 0, 0, last])
+        return ctx
+
+    def post(self, H, case, outcome, I, ctx):
+        if outcome[0] != 'return':
+            yield ('C06.ramp.no_raise', False if outcome[0] == 'raise' else Havoc(outcome[1]))
+            return
+        op = outcome[1]
+        A, b, ct = (op.get(k) for k in ('A', 'b', 'cType'))
+        if any(isinstance(x, Havoc) for x in (A, b, ct)):
+            yield ('C06.ramp.modelled', next(x for x in (A, b, ct) if isinstance(x, Havoc)))
+            return
+        N, m0, T, ht, on = (ctx[k] for k in ('N', 'm0', 'T', 'ht', 'on'))
+        ramp, last, conv = ctx['ramp'], ctx['last'], ctx['conv']
+        # rows appended inside the loop are row FAMILIES over the loop variable (two per iteration: lower, upper), followed by the two explicit rows of
+        # the first step; A, b and cType are appended in lockstep, so family k of A pairs with family k of b and cType (the order of the rows inside
+        # the matrix is modelled up to a permutation applied to all three alike -- the LP does not depend on it)
+        fa, fb, fc = family_segments(A), family_segments(b), family_segments(ct)
+        ta, tb, tc = explicit_tail(A, 'mat'), explicit_tail(b, 'arr'), explicit_tail(ct, 'str')
+        ok = all(len(x) == 2 for x in (fa, fb, fc, ta, tb, tc)) and all(len(f.vars) == 1 for f in fa)
+        yield ('C06.ramp.structure_two_rows_per_later_step_plus_two_for_the_first', ok)
+        if not ok:
+            return
+        yield ('C06.ramp.base_rows_kept', base_kept(ctx, A, b, ct))
+        c = z3.Int('c')
+        cdom = z3.And(c >= 0, c < N)
+        v = lambda cc, tt: ind(cc, tt) + (conv.f(tt) * ind(cc, ht + tt) if case['heat'] else 0)        # coefficient of column cc in v_t
+        for k, (nm, extra, rhs, let) in enumerate((
+                ('decrease_within_ramp_between_consecutive_steps', (lambda cc, tt: ramp * ind(cc, on + tt - 1) if case['on'] else 0), (0 if case['on'] else -ramp), 'L'),
+                ('increase_within_ramp_between_consecutive_steps', (lambda cc, tt: -ramp * ind(cc, on + tt) if case['on'] else 0), (0 if case['on'] else ramp), 'U'))):
+            t = fa[k].vars[0]
+            dom = z3.And(t >= 1, t < T)
+            yield (f'C06.ramp.{nm}', z3.And(
+                z3.ForAll([t], z3.And(fa[k].dom == dom, fb[k].dom == dom, fc[k].dom == dom)),
+                z3.ForAll([t, c], z3.Implies(z3.And(dom, cdom), z3.And(
+                    lift(fa[k].item.nr) == 1, lift(fa[k].item.f(0, c)) == v(c, t) - v(c, t - 1) + extra(c, t),
+                    lift(z3.substitute(lift(fb[k].item.f(0)), (fb[k].vars[0], t))) == rhs,
+                    lift(S.char_at(fc[k].item, 0)) == sym.strlit(let))))))
+        yield ('C06.ramp.first_step_not_below_last_dispatch_minus_ramp', z3.And(
+            z3.ForAll([c], z3.Implies(cdom, lift(ta[0].f(0, c)) == v(c, 0))), lift(tb[0].f(0)) == (last if case['tar'] == 0 else last - ramp),
+            lift(S.char_at(tc[0], 0)) == sym.strlit('L')))
+        yield ('C06.ramp.first_step_not_above_last_dispatch_plus_ramp', z3.And(
+            z3.ForAll([c], z3.Implies(cdom, lift(ta[1].f(0, c)) == v(c, 0) - (ramp * ind(c, on) if case['on'] else 0))),
+            lift(tb[1].f(0)) == (last if case['on'] else last + ramp), lift(S.char_at(tc[1], 0)) == sym.strlit('U')))
